@@ -166,3 +166,200 @@ from pyvc.contracts import REG
 for _m, _af, _st in (('list', False, True), ('list', True, True), ('generator', False, True), ('generator', True, True),
                      ('generator', True, False)):
     REG.add(next_case(_m, _af, _st))
+
+
+# ---------------------------------------------------------------------------------------------------
+# operations built on a complete pass: get_event_counts, get_expected_rates
+# The loop `for .. in self` is cut by a PASS invariant: by induction over the proved step relation of __next__
+# (and idempotence of filtering, lemma L6_filter_idem) a complete pass started at _idx == 0 yields phi?(s_0) .. phi?(s_{J-1})
+# in order and leaves the forecast in the state described by at_exit().
+# ---------------------------------------------------------------------------------------------------
+from pyvc.contracts import LoopInv
+from pyvc.core import Arr, Obj, to_real
+from pyvc.lib import SUM
+
+SMCF = z3.Function('space_magnitude_counts', CatSort, z3.IntSort(), z3.IntSort(), z3.RealSort())
+
+
+@method('catalog', 'spatial_magnitude_counts')
+def _cat_smc(L, cat, *a, **k):
+    fc = L.ctx.ghost.get('forecast_shape')
+    n0, n1 = fc
+    key = cat.key
+    return Arr((n0, n1), lambda ix: SMCF(key, to_z3(ix[0]), to_z3(ix[1])), 'float64')
+
+
+class PassInv(LoopInv):
+    """iteration over a CatalogForecast (list-backed): J trips, catalog number i of the pass"""
+
+    def forecast(self, it):
+        return it.inner if isinstance(it, Opaque) else it
+
+    def trips(self, I, it):
+        return to_z3(self.forecast(it).fields['n_cat'])
+
+    def pass_key(self, fo, i):
+        return FILT(SRC(to_z3(i))) if fo.fields['apply_filters'] is True else SRC(to_z3(i))
+
+    def item(self, I, it, i):
+        fo = self.forecast(it)
+        cat = mk_cat(self.pass_key(fo, i))
+        if isinstance(it, Opaque) and it.name == 'enumerate':
+            return (i, cat)
+        return cat
+
+    def at_exit(self, I, fr, it):
+        fo = self.forecast(it)
+        J = to_z3(fo.fields['n_cat'])
+        fo.fields['_idx'] = 0
+        fo.fields['_event_counts'] = SymList(J, lambda k: EC(self.pass_key(fo, k)), '_event_counts')
+
+    def inv(self, I, fr, i, it):
+        if self.mode == 'prove' and simp(to_z3(i) == 0) is True:
+            fo = self.forecast(it)
+            yield 'a pass starts with the cursor at 0', to_z3(fo.fields['_idx']) == 0
+            yield 'list-backed forecast that knows its length', z3.BoolVal(isinstance(fo.fields.get('catalogs'), SymList)) 
+
+
+def _list_forecast(c, apply_filters, **extra):
+    J = c.int('J')
+    c.ctx.assume(J >= 1)
+    nE = c.int('n_counts')
+    c.ctx.assume(nE >= 0)
+    Ef = z3.Function('counts0', z3.IntSort(), z3.IntSort())
+    fields = dict(_idx=0, n_cat=J, _event_counts=SymList(nE, lambda i: Ef(to_z3(i)), '_event_counts'), apply_filters=apply_filters,
+                  filters=['magnitude >= 4.0'], apply_mct=False, filter_spatial=False, store=True, name='fc', event=None,
+                  catalogs=catalog_list(J), expected_rates=None, start_time=None, end_time=None)
+    fields.update(extra)
+    return c.obj(CF, **fields), J, nE
+
+
+def event_counts_case(apply_filters, have_counts):
+    class GEC:
+        qualname = CF + '.get_event_counts'
+        case = 'list-backed, apply_filters=%s, %s' % (apply_filters, 'counts of an earlier pass present' if have_counts else 'no pass made yet')
+        properties = ('C13',)
+        loops = {0: PassInv()}
+
+        def params(c):
+            fo, J, nE = _list_forecast(c, apply_filters)
+            if have_counts:
+                c.ctx.assume(nE == J)
+            else:
+                c.ctx.assume(nE == 0)
+            return dict(self=fo, verbose=False, _J=J)
+
+        def ensures(c, r, self, verbose, _J):
+            key = (lambda k: FILT(SRC(k))) if apply_filters else (lambda k: SRC(k))
+            yield 'one count per catalog of a single pass', z3.BoolVal(isinstance(r, Arr)) 
+            if isinstance(r, Arr):
+                yield 'length == number of catalogs', to_z3(r.shape[0]) == _J
+                if not have_counts:
+                    k = c.ctx.fresh_int('k!sk')
+                    yield 'count k is the event count of catalog k with the configured filters applied', z3.Implies(
+                        z3.And(0 <= k, k < _J), to_z3(r.f((k,))) == EC(key(k)))
+    GEC.__name__ = 'GEC_%s_%s' % (apply_filters, have_counts)
+    return GEC
+
+
+class RatesLoop(PassInv):
+    """get_expected_rates: data holds the sum of the space-magnitude counts of the catalogs processed so far"""
+
+    def havoc(self, I, fr, i, it):
+        n0, n1 = I.ctx.ghost['forecast_shape']
+        self.D = I.ctx.fresh_fun('acc', z3.IntSort(), z3.IntSort(), z3.RealSort())
+        D = self.D
+        fr.locals['data'] = Arr((n0, n1), lambda ix: D(to_z3(ix[0]), to_z3(ix[1])), 'float64')
+
+    def total(self, fo, a, b, i):
+        j = z3.Int('i!lam')
+        return SUM(z3.Lambda([j], SMCF(self.pass_key(fo, j), a, b)), to_z3(i))
+
+    def inv(self, I, fr, i, it):
+        yield from PassInv.inv(self, I, fr, i, it)
+        fo = self.forecast(it)
+        if simp(to_z3(i) == 0) is True:
+            return
+        data = fr.locals['data']
+        n0, n1 = I.ctx.ghost['forecast_shape']
+        if self.mode == 'prove':
+            a, b = I.ctx.fresh_int('a!sk'), I.ctx.fresh_int('b!sk')
+            self.sk = (a, b)
+            rng = z3.And(0 <= a, a < to_z3(n0), 0 <= b, b < to_z3(n1))
+            yield 'accumulator has the region shape', z3.BoolVal(isinstance(data, Arr) and data.ndim == 2)
+            if isinstance(data, Arr) and data.ndim == 2:
+                yield 'accumulator == sum of the space-magnitude counts of the catalogs so far', z3.Implies(
+                    z3.And(rng, to_z3(i) >= 1), to_real(data.f((a, b))) == self.total(fo, a, b, i))
+        else:
+            a, b = z3.Ints('a!inv b!inv')
+            rng = z3.And(0 <= a, a < to_z3(n0), 0 <= b, b < to_z3(n1))
+            yield 'acc', z3.ForAll([a, b], z3.Implies(z3.And(rng, to_z3(i) >= 1), to_real(data.f((a, b))) == self.total(fo, a, b, i)),
+                                   patterns=[data.f((a, b))])
+
+    def step_lemmas(self, I, fr, i, it):
+        fo = self.forecast(it)
+        a, b = self.sk
+        # L0_sum_unfold at the goal's cell
+        yield self.total(fo, a, b, to_z3(i) + 1) == self.total(fo, a, b, i) + SMCF(self.pass_key(fo, i), a, b)
+        I.used_lemmas.add('L0.count_unfold')
+
+
+def expected_rates_case(apply_filters):
+    class GER:
+        qualname = CF + '.get_expected_rates'
+        case = 'list-backed, apply_filters=%s, first request' % apply_filters
+        properties = ('C13', 'C10')
+        loops = {0: RatesLoop()}
+
+        def params(c):
+            n0, n1 = c.int('n_cells'), c.int('n_mags')
+            c.ctx.assume(z3.And(n0 >= 1, n1 >= 1))
+            c.ctx.ghost['forecast_shape'] = (n0, n1)
+            mags = c.arr('magnitudes', 'float64', n=n1)
+            region = c.obj('csep.core.regions.CartesianGrid2D', magnitudes=mags, name='region')
+            region.abstract = False
+            fo, J, nE = _list_forecast(c, apply_filters, region=region)
+            return dict(self=fo, verbose=False, _J=J, _shape=(n0, n1))
+
+        def ensures(c, r, self, verbose, _J, _shape):
+            n0, n1 = _shape
+            key = (lambda k: FILT(SRC(k))) if apply_filters else (lambda k: SRC(k))
+            yield 'returns the expected-rates forecast object', z3.BoolVal(isinstance(r, Obj) and r is self.fields.get('expected_rates'))
+            if isinstance(r, Obj):
+                d = r.fields.get('_data')
+                yield 'rates array has the region shape', z3.BoolVal(isinstance(d, Arr) and d.ndim == 2)
+                a, b = c.ctx.fresh_int('a!sk'), c.ctx.fresh_int('b!sk')
+                j = z3.Int('i!lam')
+                tot = SUM(z3.Lambda([j], SMCF(key(j), a, b)), _J)
+                yield 'expected rate of bin (a,b) == mean over the catalogs of their space-magnitude counts', z3.Implies(
+                    z3.And(0 <= a, a < n0, 0 <= b, b < n1), to_real(d.f((a, b))) * z3.ToReal(_J) == tot)
+                yield 'the forecast is not rescaled', z3.BoolVal(r.fields.get('_scale') == 1)
+
+        def raises(c, exc, self, verbose, _J, _shape):
+            return None
+    GER.__name__ = 'GER_%s' % apply_filters
+    return GER
+
+
+@contract
+class GetExpectedRatesCached:
+    qualname = CF + '.get_expected_rates'
+    case = 'later request: the cached object is returned'
+    properties = ('C13',)
+
+    def params(c):
+        mags = c.arr('magnitudes', 'float64')
+        region = c.obj(None, magnitudes=mags)
+        cached = c.obj(None, name='cached expected rates')
+        fo, J, nE = _list_forecast(c, False, region=region, expected_rates=cached)
+        return dict(self=fo, verbose=False, _cached=cached)
+
+    def ensures(c, r, self, verbose, _cached):
+        yield 'the same object is returned on every later request', z3.BoolVal(r is _cached)
+        yield 'nothing is recomputed or written', z3.BoolVal(not self.written)
+
+
+for _af in (False, True):
+    REG.add(expected_rates_case(_af))
+    for _hc in (False, True):
+        REG.add(event_counts_case(_af, _hc))
